@@ -206,6 +206,12 @@ def check(model, rep):
     rep.floor('R08.3', 'dynamics kernel call sites in Arm', n_sites, 2)
     r084(model, rep, arm)
     r085(model, rep, arm)
+    from . import frames
+    rep.rule('R08.6', 'dynamics methods of Arm: every relative transform inv(A) @ B is taken between poses expressed in the same frame (world vs base)')
+    dyn = [fi for name, fi in sorted(arm.methods.items()) if 'ynamics' in name or name in ('massMatrix', 'coriolisGravity')]
+    n = frames.check_methods(rep, 'R08.6', dyn)
+    rep.count('R08.6 relative transforms with both frames known', n)
+    rep.floor('R08.6', 'typed relative transforms in the dynamics methods', n, 2)
 
 
 def _strip(e):
